@@ -200,6 +200,7 @@ impl NormalizingHasher {
             return;
         }
 
+        crate::verif_event!("norm.hash_buf", self.last_was_cr, buffer[0], buffer.len());
         if !self.text_mode {
             self.hasher.update(buffer);
         } else {
